@@ -875,8 +875,16 @@ class QSerialization(DeconstructedSerialization):
             child = value.children[0]
 
             if isinstance(child, tuple):
-                result.append('models.Q(%s=%s)'
-                              % (child[0], serialize_to_python(child[1])))
+                if value.connector != value.default:
+                    # A lone child can still carry a non-default connector
+                    # (Q(*conditions, _connector=Q.OR) with one condition).
+                    connector_str = ', _connector=%r' % str(value.connector)
+                else:
+                    connector_str = ''
+
+                result.append('models.Q(%s=%s%s)'
+                              % (child[0], serialize_to_python(child[1]),
+                                 connector_str))
             else:
                 # A single nested Q, as built by Q(Q(...)) or by negating a
                 # combined Q (~(Q(...) | Q(...))).
